@@ -247,11 +247,20 @@ func RunDriver(a DriverArgs) int {
 	}
 	// bounded progress: re-run timed-out cases alone
 	sort.Ints(timeouts)
+	confirmed := 0
 	for k, c := range timeouts {
+		if confirmed >= 3 {
+			// three cases already failed to end when run alone: the verdict is a violation; the
+			// remaining ones are not re-run (each would cost the full time bound again)
+			inconcl = append(inconcl, fmt.Sprintf("%d more cases exceeded %ds under load and were not re-run alone (3 already confirmed alone): %v", len(timeouts)-k, timeout, timeouts[k:]))
+			break
+		}
 		before := len(viols)
 		runRange(1000+k, c, 1, c+1, true)
 		if len(viols) == before {
 			inconcl = append(inconcl, fmt.Sprintf("case %d exceeded %ds under load but not alone: inconclusive(load)", c, timeout))
+		} else {
+			confirmed++
 		}
 	}
 	// race reports
